@@ -102,6 +102,8 @@ class Tree:
             self.real_by_tok[tok] = rp
             self.versions[rp] = [tok]
         fs.write("pkgs/%s/__init__.py" % self.pkg, "", 1)
+        for r in ("root", "root2"):
+            fs.symlink("lnk_" + r, r, True)
         for rel, target, is_dir in BASE_LINKS:
             if rel in sc["absent"]:
                 continue
@@ -173,6 +175,14 @@ class Tree:
                 except (OSError, ValueError):
                     return False
         return False
+
+
+class TokEnv(Environment):
+    """Environment.analyze_tags[_async] load the source through the loader and hand it to
+    analyze_tags_from_string; returning the text there makes the loaded bytes observable."""
+
+    def analyze_tags_from_string(self, source, name="<string>", *, inner_tags=None):
+        return source
 
 
 def feature(name):
@@ -249,6 +259,7 @@ class C22:
         sc = {
             "config": config, "loader": loader, "pkg": pkg, "absent": absent,
             "roots": ["root", "root2"] if two else ["root"],
+            "root_shape": rng.weighted([("abs", 6), ("relative", 2), ("via_link", 2)]),
             "pkg_paths": rng.choice([["templates"], ["templates", "more"], "templates"]),
             "ext": rng.weighted([(None, 3), (".liquid", 4), (".txt", 1)]),
             "reject_symlinks": rng.chance(0.5),
@@ -269,7 +280,8 @@ class C22:
                 name = self._gen_name(rng, sc)
                 pool.append(name)
             op = {"op": "req", "uid": i, "name": name, "mode": rng.choice(["sync", "async"]),
-                  "via": rng.weighted([("direct", 6), ("include", 2), ("render", 1)])}
+                  "via": rng.weighted([("direct", 6), ("include", 2), ("render", 1), ("get_source", 2),
+                                       ("analyze_tags", 1)])}
             if config == "fault":
                 r = rng.random()
                 if r < 0.35:
@@ -344,7 +356,9 @@ class C22:
         fsl_mod.Path = FaultyPath
         FaultyPath.plan = plan
         pkgdir = fs.path("pkgs")
+        cwd = os.getcwd()
         try:
+            os.chdir(fs.root)
             with warnings.catch_warnings():
                 warnings.simplefilter("ignore")
                 tree = Tree(fs, sc)
@@ -358,6 +372,7 @@ class C22:
                         del sys.modules[m]
                     importlib.invalidate_caches()
         finally:
+            os.chdir(cwd)
             fsl_mod.Path = saved
             FaultyPath.plan = None
             fs.close()
@@ -377,7 +392,13 @@ class C22:
             ld = PackageLoader(sc["pkg"], package_path=sc["pkg_paths"], ext=sc["ext"])
             return ld, bases, sc["ext"], False
         bases = tree.roots(sc["roots"])
-        sp = bases if len(bases) > 1 else bases[0]
+        shape = sc.get("root_shape", "abs")
+        given = list(bases)
+        if shape == "relative":
+            given = list(sc["roots"])            # relative to the current directory (the sandbox, see run())
+        elif shape == "via_link":
+            given = [tree.fs.path("lnk_" + r) for r in sc["roots"]]   # a symlink to the search directory
+        sp = given if len(given) > 1 else given[0]
         if kind == "fs":
             ld = FileSystemLoader(sp, ext=sc["ext"], reject_symlinks=sc["reject_symlinks"])
         else:
@@ -389,7 +410,7 @@ class C22:
         st = res["stats"]
         viol = res["violations"]
         ld, bases, ext, reject = self._make_loader(sc, tree)
-        env = Environment(loader=ld)
+        env = TokEnv(loader=ld)
         loop = SimLoop(Rng(sc["sched_seed"], ("sched",)), step_cap=60000, lat_profile=sc["lat"])
         history = []
         in_flight = [0]
@@ -410,11 +431,19 @@ class C22:
         def perform_sync(op, name):
             if op["via"] == "direct":
                 return env.get_template(name).render()
+            if op["via"] == "get_source":
+                return env.loader.get_source(env, name).text
+            if op["via"] == "analyze_tags":
+                return env.analyze_tags(name)
             return wrapper(op, name).render(n=name)
 
         async def perform_async(op, name):
             if op["via"] == "direct":
                 return await (await env.get_template_async(name)).render_async()
+            if op["via"] == "get_source":
+                return (await env.loader.get_source_async(env, name)).text
+            if op["via"] == "analyze_tags":
+                return await env.analyze_tags_async(name)
             return await wrapper(op, name).render_async(n=name)
 
         def classify(exc):
